@@ -15,23 +15,23 @@ func init() {
 // readOnlyRoots returns the API a shared schema may be used through concurrently.
 func readOnlyRoots(p *Program) (roots []*ssa.Function, excluded []string) {
 	mutators := map[string]string{
-		"ast.(*Schema).AddTypes":                "documented schema builder",
-		"ast.(*Schema).AddPossibleType":         "documented schema builder (used by the loader)",
-		"ast.(*Schema).AddImplements":           "documented schema builder (used by the loader)",
-		"ast.(*SchemaDocument).Merge":           "merges parsed documents before loading",
-		"ast.UnmarshalSelectionSet":             "JSON decoder (builds a new document)",
-		"ast.(*Path).UnmarshalJSON":             "JSON decoder",
-		"ast.(*Field).UnmarshalJSON":            "JSON decoder",
-		"ast.(*FragmentDefinition).UnmarshalJSON": "JSON decoder",
-		"ast.(*InlineFragment).UnmarshalJSON":   "JSON decoder",
+		"ast.(*Schema).AddTypes":                   "documented schema builder",
+		"ast.(*Schema).AddPossibleType":            "documented schema builder (used by the loader)",
+		"ast.(*Schema).AddImplements":              "documented schema builder (used by the loader)",
+		"ast.(*SchemaDocument).Merge":              "merges parsed documents before loading",
+		"ast.UnmarshalSelectionSet":                "JSON decoder (builds a new document)",
+		"ast.(*Path).UnmarshalJSON":                "JSON decoder",
+		"ast.(*Field).UnmarshalJSON":               "JSON decoder",
+		"ast.(*FragmentDefinition).UnmarshalJSON":  "JSON decoder",
+		"ast.(*InlineFragment).UnmarshalJSON":      "JSON decoder",
 		"ast.(*OperationDefinition).UnmarshalJSON": "JSON decoder",
-		"validator.LoadSchema":                  "the loader builds the schema",
-		"validator.ValidateSchemaDocument":      "the loader builds the schema",
-		"validator.AddRule":                     "rule registry mutator (documented as not concurrency-safe)",
-		"validator.RemoveRule":                  "rule registry mutator (documented as not concurrency-safe)",
-		"validator.ReplaceRule":                 "rule registry mutator (documented as not concurrency-safe)",
-		"gqlparser.LoadSchema":                  "the loader builds the schema",
-		"gqlparser.MustLoadSchema":              "the loader builds the schema",
+		"validator.LoadSchema":                     "the loader builds the schema",
+		"validator.ValidateSchemaDocument":         "the loader builds the schema",
+		"validator.AddRule":                        "rule registry mutator (documented as not concurrency-safe)",
+		"validator.RemoveRule":                     "rule registry mutator (documented as not concurrency-safe)",
+		"validator.ReplaceRule":                    "rule registry mutator (documented as not concurrency-safe)",
+		"gqlparser.LoadSchema":                     "the loader builds the schema",
+		"gqlparser.MustLoadSchema":                 "the loader builds the schema",
 	}
 	for _, fn := range p.Funcs() {
 		name := p.FuncName(fn)
